@@ -8,6 +8,7 @@
 //!                    `probe <text>` yields the same fields
 //!   `d <hex text>`   the same for the arguments of a declaration utility (`typeset <text>`): `name=value` words
 //!                    are not subject to pathname expansion, tilde expansion is looked for after `=` and `:`
+//!   `v s:<hex>` / `v a:<hex>,…`  `Value::quote` of a scalar / array through the API (`QuotedValue`)
 //!   `c <codepoint>`  `char::is_whitespace`, `quoted(c).needs_quoting()`, `is_blank`, `is_token_delimiter_char`
 //!   `L <listing case>`  definition history in one virtual shell, listings printed, evaluated in a fresh one
 //!
@@ -29,12 +30,15 @@ mod listing {
     //!   `a:<name>:<v1>,<v2>…:<attrs>` `name=('v1' 'v2' …)` then `typeset -x…` (name is an identifier)
     //!   `l:<name>:<value>`           `alias -- 'name=value'`   (`lg:` = both parts unquoted with `[` … `]` across)
     //!   `t:<COND>:<action>`          `trap -- 'action' COND`
+    //!   `e:<name>:<value>`           variable created through the API before the script (name contains `=`)
     //!   `m:<octal>`                  `umask <octal>`
-    //!   `o:<option>:<0|1>`           `set ±o option`
+    //!   `ms:<symbolic>`              `umask -- <symbolic>`  (who/operator/permission clauses)
+    //!   `o:<option>:<0|1>`           `set ±o option` (`portable` is switched on only before the option listings)
     //!   `f:<name>:<body index>[:r]`  `'name'() body` [then `typeset -fr -- 'name'`]
     //!                                (`fq:` = name needs quoting, `fk:` = name is a keyword)
     //! Observation: the texts printed by `alias`, `typeset -p`, `export -p`, `readonly -p`, `set`, `trap`,
-    //! `umask`, `set +o` and the attribute lines (`typeset -fr [-- ]name`) of `typeset -fp` (hex).  Oracle: every listing (also `umask -S`, `typeset -fp`) evaluated in a fresh
+    //! `alias -- names`, `typeset -p -- names`, `trap -p CONDS`, `set -o`, `umask -S`,
+    //! `umask`, `set +o` and the attribute lines (`typeset -fr [-- ]name`) of `typeset -fp` (hex).  Oracle: every listing (also `typeset -fp [-- names]`, `trap -p`) evaluated in a fresh
     //! shell recreates what it lists (state snapshots compared), and every listed command line is made of
     //! literal-only words for the real lexer.
     use super::*;
@@ -63,7 +67,7 @@ mod listing {
     const KEYWORDS: &[&str] = &["if", "then", "else", "elif", "fi", "do", "done", "case", "esac", "while", "until", "for", "in", "function", "{", "}", "!", "[[", "]]", "select", "namespace"];
 
     thread_local! {
-        static SNAP: RefCell<Option<Vec<String>>> = const { RefCell::new(None) };
+        static SNAP: RefCell<Vec<Vec<String>>> = const { RefCell::new(Vec::new()) };
     }
 
     /// harness-side quoting, independent of yash-quote: `'…'` with `'\''` for each quote
@@ -110,19 +114,25 @@ mod listing {
         env.system.umask(m);
         lines.push(format!("M {:03o}", m.bits() & 0o777));
         lines.sort();
-        SNAP.with(|s| *s.borrow_mut() = Some(lines));
+        SNAP.with(|s| s.borrow_mut().push(lines));
         Box::pin(async move { ExitStatus::SUCCESS.into() })
     }
 
-    /// Runs a script with `snap` available; returns (stdout, snapshot taken by the last `snap`).
-    fn run(script: &str) -> Result<(String, Option<Vec<String>>), String> {
-        SNAP.with(|s| *s.borrow_mut() = None);
+    /// Runs a script with `snap` available; `pre` = variables created through the API before the first
+    /// command (names the `typeset` built-in cannot create, e.g. containing `=`).
+    /// Returns (stdout, the snapshots taken by each `snap`).
+    fn run_pre(script: &str, pre: &[(String, String)]) -> Result<(String, Vec<Vec<String>>), String> {
+        SNAP.with(|s| s.borrow_mut().clear());
         let mut out = String::new();
+        let pre: Vec<(String, String)> = pre.to_vec();
         let r = guarded(|| {
             let (o, _) = run_with(
                 Config::new(script),
-                |env, _| {
+                move |env, _| {
                     env.builtins.insert("snap", Builtin::new(Type::Mandatory, snap_main));
+                    for (n, v) in &pre {
+                        let _ = env.variables.get_or_new(n.as_str(), Scope::Global).assign(v.as_str(), None);
+                    }
                 },
                 |_, _| (),
             );
@@ -132,7 +142,12 @@ mod listing {
         if !r.is_empty() {
             return Err(r);
         }
-        Ok((out, SNAP.with(|s| s.borrow_mut().take())))
+        Ok((out, SNAP.with(|s| std::mem::take(&mut *s.borrow_mut()))))
+    }
+
+    /// the snapshot taken by the last `snap` of a script
+    fn run(script: &str) -> Result<(String, Option<Vec<String>>), String> {
+        run_pre(script, &[]).map(|(o, mut v)| (o, v.pop()))
     }
 
     thread_local! {
@@ -167,8 +182,26 @@ mod listing {
         s
     }
 
+    /// what a history turns into
+    struct Script {
+        defs: String,
+        /// variables created through the API (`e:` ops)
+        pre: Vec<(String, String)>,
+        /// `o:portable:1` : switched on only before the option listings (other listings cannot run with it)
+        portable: bool,
+        vars: Vec<String>,
+        aliases: Vec<String>,
+        fns: Vec<String>,
+    }
+
+    fn push_unique(v: &mut Vec<String>, s: String) {
+        if !v.contains(&s) {
+            v.push(s);
+        }
+    }
+
     /// the definition script of a history; `None` if the case text is malformed
-    fn script_of(case: &str) -> Option<String> {
+    fn script_of(case: &str) -> Option<Script> {
         let mut sc = String::new();
         let defaults = default_vars();
         if !defaults.is_empty() {
@@ -178,15 +211,27 @@ mod listing {
         // aliases are defined after everything else: an alias named like a command used in a function
         // body (`:`) would otherwise be substituted into the definitions that follow it
         let mut aliases = String::new();
+        let mut out = Script { defs: String::new(), pre: vec![], portable: false, vars: vec![], aliases: vec![], fns: vec![] };
         for op in case.split_whitespace().skip(1) {
             let f: Vec<&str> = op.split(':').collect();
             match f.as_slice() {
-                ["v" | "pv", n, v, a] => sc.push_str(&format!(
-                    "typeset {}-- {}\n",
-                    attrs_opts(a),
-                    sq(&format!("{}={}", dec_str(n)?, dec_str(v)?))
-                )),
-                ["n" | "pn", n, a] => sc.push_str(&format!("typeset {}-- {}\n", attrs_opts(a), sq(&dec_str(n)?))),
+                ["v" | "pv", n, v, a] => {
+                    let name = dec_str(n)?;
+                    sc.push_str(&format!("typeset {}-- {}\n", attrs_opts(a), sq(&format!("{}={}", name, dec_str(v)?))));
+                    push_unique(&mut out.vars, name);
+                }
+                ["n" | "pn", n, a] => {
+                    let name = dec_str(n)?;
+                    sc.push_str(&format!("typeset {}-- {}\n", attrs_opts(a), sq(&name)));
+                    push_unique(&mut out.vars, name);
+                }
+                ["e", n, v] => {
+                    let name = dec_str(n)?;
+                    if !name.contains('=') {
+                        return None;
+                    }
+                    out.pre.push((name, dec_str(v)?));
+                }
                 ["a", n, vs, a] => {
                     let name = dec_str(n)?;
                     let vals: Vec<String> = if *vs == "." {
@@ -198,25 +243,48 @@ mod listing {
                     if !attrs_opts(a).is_empty() {
                         sc.push_str(&format!("typeset {}-- {}\n", attrs_opts(a), name));
                     }
+                    push_unique(&mut out.vars, name);
                 }
-                ["l" | "lg", n, v] => aliases.push_str(&format!("alias -- {}\n", sq(&format!("{}={}", dec_str(n)?, dec_str(v)?)))),
+                ["l" | "lg", n, v] => {
+                    let name = dec_str(n)?;
+                    aliases.push_str(&format!("alias -- {}\n", sq(&format!("{}={}", name, dec_str(v)?))));
+                    push_unique(&mut out.aliases, name);
+                }
                 ["t", c, a] => sc.push_str(&format!("trap -- {} {}\n", sq(&dec_str(a)?), c)),
                 ["m", m] => sc.push_str(&format!("umask {m}\n")),
+                ["ms", m] => {
+                    if m.is_empty() || !m.chars().all(|c| "ugoarwxXs+-=,".contains(c)) {
+                        return None;
+                    }
+                    sc.push_str(&format!("umask -- {m}\n"))
+                }
+                ["o", "portable", st] => out.portable = *st == "1",
                 ["o", o, st] => late.push_str(&format!("set {}o {}\n", if *st == "1" { '-' } else { '+' }, o)),
                 ["f" | "fq" | "fk", n, b] => {
-                    sc.push_str(&format!("{}() {}\n", sq(&dec_str(n)?), BODIES.get(b.parse::<usize>().ok()?)?))
+                    let name = dec_str(n)?;
+                    sc.push_str(&format!("{}() {}\n", sq(&name), BODIES.get(b.parse::<usize>().ok()?)?));
+                    push_unique(&mut out.fns, name);
                 }
                 ["f" | "fq" | "fk", n, b, "r"] => {
-                    let name = sq(&dec_str(n)?);
+                    let raw = dec_str(n)?;
+                    let name = sq(&raw);
                     sc.push_str(&format!("{}() {}\n", name, BODIES.get(b.parse::<usize>().ok()?)?));
                     sc.push_str(&format!("typeset -fr -- {name}\n"));
+                    push_unique(&mut out.fns, raw);
                 }
                 _ => return None,
             }
         }
         sc.push_str(&aliases);
         sc.push_str(&late);
-        Some(sc)
+        out.defs = sc;
+        out.vars.sort();
+        out.vars.reverse();
+        out.aliases.sort();
+        out.aliases.reverse();
+        out.fns.sort();
+        out.fns.reverse();
+        Some(out)
     }
 
     /// logical command lines of a listing (unquoted newlines found by the real lexer)
@@ -266,18 +334,29 @@ mod listing {
         out
     }
 
-    const KINDS: &[(&str, &str)] = &[
-        ("A", "alias"),
-        ("V", "typeset -p"),
-        ("X", "export -p"),
-        ("R", "readonly -p"),
-        ("S", "set"),
-        ("T", "trap"),
-        ("U", "umask"),
-        ("O", "set +o"),
-        ("Us", "umask -S"),
-        ("F", "typeset -fp"),
+    /// (key, kind of state it lists = how it is checked after re-evaluation, command; `@v` `@a` `@f` = the
+    /// names of the history's variables / aliases / functions in descending order, `@c` = conditions)
+    const KINDS: &[(&str, &str, &str)] = &[
+        ("A", "A", "alias"),
+        ("V", "V", "typeset -p"),
+        ("X", "X", "export -p"),
+        ("R", "R", "readonly -p"),
+        ("S", "S", "set"),
+        ("T", "T", "trap"),
+        ("U", "U", "umask"),
+        ("Us", "Us", "umask -S"),
+        ("F", "F", "typeset -fp"),
+        ("Ao", "A", "alias -- @a"),
+        ("Vo", "V", "typeset -p -- @v"),
+        ("Fo", "F", "typeset -fp -- @f"),
+        ("Tc", "T", "trap -p @c"),
+        ("Tp", "T", "trap -p"),
+        // after `set -o portable` (if the history asks for it) and a second `snap`
+        ("O", "O", "set +o"),
+        ("Oh", "-", "set -o"),
     ];
+    /// observation order (texts the model predicts)
+    const OBS: &[&str] = &["A", "V", "X", "R", "S", "T", "U", "O", "Ao", "Vo", "Tc", "Oh", "Us"];
 
     fn var_fields(l: &str) -> Option<(String, String, String)> {
         // "V <name> <xr> <value>"
@@ -338,22 +417,39 @@ mod listing {
     }
 
     pub fn run_case(case: &str) {
-        let Some(defs) = script_of(case) else {
+        let Some(sc) = script_of(case) else {
             emit(case, "bad-case", "-");
             return;
         };
-        let mut script = defs;
+        let mut script = sc.defs.clone();
         script.push_str("snap\n");
-        for (_, cmd) in KINDS {
+        let join = |v: &Vec<String>| v.iter().map(|n| sq(n)).collect::<Vec<_>>().join(" ");
+        let var_ops: Vec<String> = sc.vars.iter().filter(|n| !n.contains('=')).cloned().collect();
+        let conds: Vec<&str> = CONDS.iter().rev().copied().collect();
+        for (k, _, cmd) in KINDS {
+            if *k == "O" {
+                if sc.portable {
+                    script.push_str("set -o portable\n");
+                }
+                script.push_str("snap\n");
+            }
+            let cmd = cmd
+                .replace("@a", &join(&sc.aliases))
+                .replace("@v", &join(&var_ops))
+                .replace("@f", &join(&sc.fns))
+                .replace("@c", &conds.join(" "));
             script.push_str(&format!("echo {SEP}\n{cmd}\n"));
         }
         script.push_str(&format!("echo {SEP}\n"));
         if std::env::var("C07_DEBUG").is_ok() {
             eprintln!("--- script\n{script}");
         }
-        let (out, s1) = match run(&script) {
-            Ok((o, Some(s))) => (o, s),
-            Ok((_, None)) => {
+        let (out, s1, s1o) = match run_pre(&script, &sc.pre) {
+            Ok((o, mut v)) if v.len() == 2 => {
+                let b = v.pop().unwrap();
+                (o, v.pop().unwrap(), b)
+            }
+            Ok(_) => {
                 emit(case, "no-snapshot", "FAIL:definitions-did-not-run");
                 return;
             }
@@ -372,8 +468,12 @@ mod listing {
             return;
         }
         let texts: Vec<&str> = parts[1..=KINDS.len()].to_vec();
+        let text_of = |key: &str| texts[KINDS.iter().position(|k| k.0 == key).unwrap()];
         let mut verdict: Option<String> = None;
-        for (i, (k, _)) in KINDS.iter().enumerate() {
+        for (i, (key, k, _)) in KINDS.iter().enumerate() {
+            if *k == "-" {
+                continue; // not meant to be evaluated (`set -o`)
+            }
             let text = texts[i];
             // the script a fresh shell evaluates
             let mut re = String::new();
@@ -381,7 +481,7 @@ mod listing {
             match *k {
                 "A" => {
                     let Some(lines) = logical_lines(text) else {
-                        verdict.get_or_insert(format!("FAIL:{k}:listing-does-not-lex"));
+                        verdict.get_or_insert(format!("FAIL:{key}:listing-does-not-lex"));
                         continue;
                     };
                     for l in &lines {
@@ -413,20 +513,21 @@ mod listing {
                 }
             }
             re.push_str("\nsnap\n");
+            let before = if *k == "O" { &s1o } else { &s1 };
             let res = match run(&re) {
-                Ok((_, Some(s2))) => recreated(k, &s1, &s2),
+                Ok((_, Some(s2))) => recreated(k, before, &s2),
                 Ok((_, None)) => Err("listing-did-not-evaluate".into()),
                 Err(p) => Err(p),
             };
             if let Err(e) = res {
-                verdict.get_or_insert(format!("FAIL:{k}:{e}"));
+                verdict.get_or_insert(format!("FAIL:{key}:{e}"));
             } else if not_literal {
-                verdict.get_or_insert(format!("FAIL:{k}:not-literal-only"));
+                verdict.get_or_insert(format!("FAIL:{key}:not-literal-only"));
             }
         }
-        let mut obs: Vec<String> = KINDS.iter().take(8).enumerate().map(|(i, (k, _))| format!("{k}={}", h(texts[i]))).collect();
+        let mut obs: Vec<String> = OBS.iter().map(|k| format!("{k}={}", h(text_of(k)))).collect();
         // attribute lines of `typeset -fp` (function bodies are not predicted by the model)
-        let fa: String = logical_lines(texts[9])
+        let fa: String = logical_lines(text_of("F"))
             .unwrap_or_default()
             .iter()
             .filter(|l| l.starts_with("typeset -f"))
@@ -476,6 +577,15 @@ mod listing {
         let mut ro_fns: Vec<String> = vec![];
         let mut arrays: Vec<String> = vec![];
         for _ in 0..n {
+            if r.chance(1, 30) {
+                // a variable only the API can create: its name contains `=` (the printers skip it)
+                let mut cs: Vec<char> = weird(r, 2, true).chars().collect();
+                let i = r.below(cs.len() + 1);
+                cs.insert(i, '=');
+                let name: String = cs.into_iter().collect();
+                ops.push(format!("e:{}:{}", h(&name), h(&weird(r, 4, true))));
+                continue;
+            }
             match r.below(12) {
                 0..=3 => {
                     // scalar / valueless variable
@@ -536,8 +646,32 @@ mod listing {
                     ops.push(format!("{}:{}:{}", if glob { "lg" } else { "l" }, h(&name), h(&value)));
                 }
                 8 => ops.push(format!("t:{}:{}", r.pick(CONDS), h(&weird(r, 8, true)))),
-                9 => ops.push(format!("m:{:03o}", r.below(512))),
-                10 => ops.push(format!("o:{}:{}", r.pick(OPTS), r.below(2))),
+                9 => {
+                    if r.chance(1, 2) {
+                        ops.push(format!("m:{:03o}", r.below(512)))
+                    } else {
+                        // symbolic mode: clauses of who, operator, permission (or permission copy)
+                        let n = 1 + r.below(3);
+                        let clauses: Vec<String> = (0..n)
+                            .map(|_| {
+                                let mut c = r.pick(&["", "u", "g", "o", "a", "ug", "go", "uo", "ugo", "au"]).to_string();
+                                for _ in 0..1 + r.below(2) {
+                                    c.push(*r.pick(&['=', '+', '-']));
+                                    c.push_str(r.pick(&["", "r", "w", "x", "rw", "rx", "wx", "rwx", "X", "rX", "wXs", "s", "u", "g", "o"]));
+                                }
+                                c
+                            })
+                            .collect();
+                        ops.push(format!("ms:{}", clauses.join(",")))
+                    }
+                }
+                10 => {
+                    if r.chance(1, 5) {
+                        ops.push(format!("o:portable:{}", r.below(2)))
+                    } else {
+                        ops.push(format!("o:{}:{}", r.pick(OPTS), r.below(2)))
+                    }
+                }
                 _ => {
                     let name = match r.below(24) {
                         0..=15 => ident(r),
@@ -712,12 +846,19 @@ fn shell_read_back(texts: &[String]) -> Vec<Result<Option<Vec<String>>, String>>
 }
 
 fn run_q(strings: &[String]) {
-    let quoted: Vec<String> = strings.iter().map(|s| yash_quote::quoted(s).to_string()).collect();
+    // `quote` (the `Cow` entry point) gives the text; `quoted` (the `Display` entry point) must agree
+    let quoted: Vec<String> = strings.iter().map(|s| yash_quote::quote(s).into_owned()).collect();
     let back = shell_read_back(&quoted);
     for ((s, q), f) in strings.iter().zip(&quoted).zip(&back) {
-        let oracle = match f {
-            Ok(Some(v)) if v.len() == 1 && v[0] == *s => "ok".to_string(),
-            _ => "FAIL:readback".to_string(),
+        let d = yash_quote::quoted(s);
+        let borrowed = matches!(yash_quote::quote(s), std::borrow::Cow::Borrowed(_));
+        let oracle = if d.to_string() != *q || d.as_raw() != s.as_str() || borrowed == d.needs_quoting() {
+            "FAIL:quote-and-quoted-disagree".to_string()
+        } else {
+            match f {
+                Ok(Some(v)) if v.len() == 1 && v[0] == *s => "ok".to_string(),
+                _ => "FAIL:readback".to_string(),
+            }
         };
         emit(&format!("q {}", enc_str(s)), &format!("{} {}", enc_str(q), show_back(f)), &oracle);
     }
@@ -864,6 +1005,34 @@ fn run_d(texts: &[String]) {
     }
 }
 
+/// `v` leg: `Value::quote` (yash-env/src/variable/value.rs `QuotedValue`) through the API.
+/// case `v s:<hex>` (scalar) or `v a:<hex>,<hex>…` / `v a:.` (array); observation: hex of the quoted text.
+fn run_v(case: &str, spec: &str) {
+    use std::borrow::Cow;
+    use yash_env::variable::Value;
+    let value = match spec.split_once(':') {
+        Some(("s", t)) => dec_str(t).map(Value::scalar),
+        Some(("a", ".")) => Some(Value::array(Vec::<String>::new())),
+        Some(("a", t)) => t.split(',').map(dec_str).collect::<Option<Vec<String>>>().map(Value::from),
+        _ => None,
+    };
+    let Some(value) = value else {
+        emit(case, "bad-case", "-");
+        return;
+    };
+    let mut oracle = "ok".to_string();
+    let obs = guarded(|| {
+        let q = value.quote();
+        let text = q.to_string();
+        let cow: Cow<str> = q.into();
+        if *cow != *text || q.as_ref() != &value {
+            oracle = "FAIL:cow-and-display-disagree".into();
+        }
+        enc_str(&text)
+    });
+    emit(case, &obs, &oracle);
+}
+
 // ------------------------------------------------------------------------------------------------
 // c leg
 
@@ -898,6 +1067,7 @@ fn run_fixed(case: &str) {
             Some(s) => run_w(&[s]),
             None => emit(case, "bad-case", "-"),
         },
+        ["v", t] => run_v(case, t),
         ["d", t] => match dec_str(t) {
             Some(s) => run_d(&[s]),
             None => emit(case, "bad-case", "-"),
@@ -979,6 +1149,26 @@ fn main() {
         }
     }
     run_d(&texts);
+
+    // ---- v leg: `Value::quote` on scalars and arrays
+    let mut rng = Rng::new(o.seed ^ 0xC07_5);
+    for k in 0..(if thorough { 20_000 } else { 1_500 }) {
+        let mut r = rng.fork();
+        let case = if r.chance(1, 4) {
+            format!("v s:{}", enc_str(&random_string(&mut r, CORE, 6)))
+        } else {
+            let n = r.below(5);
+            if n == 0 {
+                "v a:.".to_string()
+            } else {
+                let vs: Vec<String> = (0..n).map(|_| enc_str(&random_string(&mut r, CORE, 4))).collect();
+                format!("v a:{}", vs.join(","))
+            }
+        };
+        if mine(k) {
+            run_v(&case, case.split_once(' ').unwrap().1);
+        }
+    }
 
     // ---- c leg: every code point in thorough tier
     let top: u32 = if thorough { 0x110000 } else { 0x3100 };
